@@ -727,6 +727,49 @@ impl<K: KeyT, V: ValT> World<K, V> {
                 };
                 self.finish(op, &meta, json!({"t":"unit"}), vec![("objs", Value::Array(ids))])
             }
+            "Probe" => {
+                // C04's own sentence, executed: insert capacity()-len() previously unseen keys
+                let (cap0, len0) = match self.slots[s].as_ref().expect("dead") {
+                    Slot::Map(m) => (m.capacity(), m.len()),
+                    Slot::Set(m) => (m.capacity(), m.len()),
+                };
+                let k = cap0.saturating_sub(len0).min(400);
+                let base = 500_000 + (self.probe_ctr as u32) * 1000;
+                self.probe_ctr += 1;
+                let zst = K::NAME == "zst";
+                let is_map = self.is_map(s);
+                let mut ids: Vec<Value> = Vec::new();
+                let mut mincap = cap0;
+                let k = if zst { 0 } else { k };
+                let (_, meta) = if is_map {
+                    let objs: Vec<(K, V)> = (0..k).map(|i| (K::new(base + i as u32), V::new(0))).collect();
+                    for (k, v) in &objs {
+                        ids.push(json!([k.k(), v.v(), k.id(), v.id()]));
+                    }
+                    let map = self.map(s);
+                    measure(|| {
+                        armf();
+                        for (k, v) in objs {
+                            map.insert(k, v);
+                            mincap = mincap.min(map.capacity());
+                        }
+                    })
+                } else {
+                    let objs: Vec<K> = (0..k).map(|i| K::new(base + i as u32)).collect();
+                    for k in &objs {
+                        ids.push(json!([k.k(), 0, k.id(), 0]));
+                    }
+                    let set = self.set(s);
+                    measure(|| {
+                        armf();
+                        for k in objs {
+                            set.insert(k);
+                            mincap = mincap.min(set.capacity());
+                        }
+                    })
+                };
+                self.finish(op, &meta, json!({"t":"unit"}), vec![("objs", Value::Array(ids)), ("mincap", json!(mincap)), ("k", json!(k))])
+            }
             "FromIter" => {
                 let items: Vec<(u32, u32)> = op["items"]
                     .as_array()
